@@ -169,7 +169,10 @@ def Prog.addLine (p : Prog) (toks : List String) : Prog :=
       conc := kvN rest "conc", coe := (kv rest "coe").getD "-", emitters := (kvN rest "emitters").getD 0,
       instrDir := kvB rest "instrflow" || kvB rest "instrpar", autoinstr := kvB rest "autoinstr",
       mode := (kv rest "mode").getD "base", wrap := (kv rest "wrap") != some "0" }
-  | "P" :: _ :: "order" :: rest => { p with order := rest }
+  | "P" :: _ :: "order" :: rest =>
+    -- the `order` line closes a program: from here on `tasks` is in LISTING order (the order of the
+    -- cff.Task options in the source, `pos`), which is what `funcs`/`toposort` iterate over
+    { p with order := rest, tasks := p.tasks.mergeSort (fun a b => decide (a.pos ≤ b.pos)) }
   | _ => p
 
 def parseScenario (toks : List String) : Scenario :=
